@@ -60,6 +60,9 @@ func scenC01(c *ctx) {
 		}
 		c.rec.Emit(doGenerateHOTP(fmt.Sprintf("C01/rnd/%d", i), c.someSpelling(key), c.someCounter(), P{Digits: d, Alg: a}))
 	}
+	// scripted digests: with the HMAC constructor swapped (verif hook) the digest is CHOSEN, so every truncation
+	// offset and the boundary values of the 31-bit number run end to end through the public API
+	c.scriptedDigests()
 	// undecodable secrets never give a code
 	for i, bad := range []string{"1", "A", "ABC", "ABCDEF", "AB=CD", "A!AAAAAA", "01234567", "MZXW6YT!", "AAAAAAAA8"} {
 		c.rec.Emit(doGenerateHOTP(fmt.Sprintf("C01/badsecret/%d", i), bad, uint64(i), P{Digits: 6}))
@@ -449,4 +452,43 @@ func min64(a, b uint64) uint64 {
 		return a
 	}
 	return b
+}
+
+var dtValues = []uint32{0, 1, 9, 10, 99, 100, 999, 1000, 99999, 100000, 999999, 1000000, 9999999, 10000000, 99999999, 100000000, 999999999, 1000000000,
+	1410065407, 1410065408, 2147483647, 2147483646, 1284755224, 1000000007, 2000000000, 123456789, 1073741824}
+
+func (c *ctx) scriptedDigests() {
+	if !scriptingAvailable() {
+		return
+	}
+	id := 0
+	for _, size := range []int{20, 32, 64} {
+		alg := map[int]uint8{20: 0, 32: 1, 64: 2}[size]
+		for off := 0; off < 16; off++ {
+			for vi, v := range dtValues {
+				if c.quick() && (off+vi)%4 != 0 {
+					continue
+				}
+				for _, top := range []uint32{0, 1 << 31} {
+					sum := c.randBytes(size)
+					sum[size-1] = sum[size-1]&0xF0 | byte(off)
+					w := v | top
+					sum[off], sum[off+1], sum[off+2], sum[off+3] = byte(w>>24), byte(w>>16), byte(w>>8), byte(w)
+					d := okDigits[c.rng.Intn(len(okDigits))]
+					if vi%3 == 0 {
+						d = uint8(1 + (vi+off)%10)
+					}
+					key := c.randBytes(20)
+					ctr := c.someCounter()
+					id++
+					e := withScript(sum, func() Event {
+						return doGenerateHOTP(fmt.Sprintf("C01/script/l%d/o%d/v%d/t%d/%d", size, off, v, top>>31, id), b32(key), ctr, P{Digits: d, Alg: alg})
+					})
+					// the harness claims HMAC(key, counter) = the scripted digest: that is what the library was given
+					e.Orc = []Mac{{Alg: int(alg), Key: B(key), Msg: W64(ctr), Sum: B(sum)}}
+					c.rec.Emit(e)
+				}
+			}
+		}
+	}
 }
